@@ -79,7 +79,8 @@ CLAIMS['C18'] = dict(category='other', ref='5 Core G, 8 C18',
          "C18_conforming_trace_race_free: a trace generated by the table is race-free on every covered location class; "
          "C18_uncovered_are_recorded lists the classes left out. Repaired in the repository (fix: commits) and no longer excused: G2 (stop "
          "cleared conn/in/out read elsewhere: nil dereference in writeMessage), G3 (Close/Count paths ignored the mutexes), G6 (traffic "
-         "counters read plainly), Session.ID. NOT proved: that the program's executions are traces generated by the table (no aliasing, no "
+         "counters read plainly), Session.ID, and getSession's unlocked read of Cmsg (nil while a concurrent CONNECT with the same client id "
+         "has created but not initialised the session: nil-pointer panic in the unrecovered accept goroutine, ending the broker). NOT proved: that the program's executions are traces generated by the table (no aliasing, no "
          "reflection, closures by lexical position, trie-node ownership assumed); the check decides 'a lock was removed / an access left its "
          "lock / a new unguarded accessor appeared', not arbitrary races. The Go race detector drives the real broker concurrently (raw "
          "clients, session take-over, library clients, Server.Close, in-process Publish/Subscribe) to validate the table on the unchanged "
